@@ -100,6 +100,9 @@ func (s *Scenario) explorer(deadline time.Time, counters, maxima map[string]int)
 				s.Count(o, counters, maxima)
 			}
 			if x.HitHorizon && !s.Live {
+				if x.Livelock != "" {
+					return fmt.Sprintf("LIVELOCK|the execution never ends: the goroutine created at %s has been running alone for more than 1000 steps with no other goroutine able to run and no timer pending, so nothing can ever change what it sees (channels closed so far: %v)", x.Livelock, x.Final)
+				}
 				return ""
 			}
 			if s.proj != nil {
